@@ -328,10 +328,15 @@ def _r15_12(prog: Program, res: Result, ev: Evaluator) -> None:
                 return None
             def comparison(w) -> bool:
                 return any(fct[0] == "lit" and fct[2] and "match_template(" in plain(fct[1]) and "ast.Compare(" in plain(fct[1]) for fct in w.facts)
-            verdicts = [fenced(w) or ("comparison" if comparison(w) else None) for w in worlds]
+            # a comparison costs at most the size of its operands - provided every operand that can be BUILT is bounded where it is built.
+            # A range has no size in memory: `1.5 in range(10 ** 12)` walks it number by number.  The exemption therefore holds only if
+            # the cost predicate of calls bounds the length of the ranges it lets through (a branch for "range" that takes len(range(..))).
+            ranges_bounded = any("'range'" in norm(g.node) and "len(range(" in norm(g.node).replace(" ", "") for g in prog.funcs.values() if g.key in preds)
+            verdicts = [fenced(w) or ("comparison" if (comparison(w) and ranges_bounded) else None) for w in worlds]
             ok = all(verdicts)
             res.decide(ok, "R15.12", f.loc(c), f.fq, f"{short(c, 60)} # {kind} applied to evaluated values",
                        f"only under {sorted(set(verdicts))}" if ok else
+                       ("a comparison is applied without a bound on its cost and the length of constructed ranges is not bounded either: `1.5 in range(10 ** 12)` walks the range. " if any(comparison(w) for w in worlds) else "") +
                        "a Python operation is applied to evaluated values without a bound on its cost: `9 ** 9 ** 9`, `sum(range(10 ** 10))`, `'a'.ljust(10 ** 10)` are "
                        "computed while formatting (hours, gigabytes), also for an operand the program never reaches")
     res.analysed["primitive_applications"] = n
@@ -372,7 +377,8 @@ def _r15_9(prog: Program, res: Result, ev: Evaluator) -> None:
             # comparisons (==, <, in, is ..) cannot see the order of a set; binary operations can: "%s" % {"a", "b"}
             idx = c.func.slice if isinstance(c.func, ast.Subscript) else None
             from_compare = idx is not None and any(isinstance(a, (ast.GeneratorExp, ast.ListComp, ast.For)) for a in [*__import__("sa.model", fromlist=["ancestors"]).ancestors(c)]) \
-                and "ops" in " ".join(norm(g.iter) for a in __import__("sa.model", fromlist=["ancestors"]).ancestors(c) for g in getattr(a, "generators", []))
+                and "ops" in " ".join([norm(g.iter) for a in __import__("sa.model", fromlist=["ancestors"]).ancestors(c) for g in getattr(a, "generators", [])]
+                                      + [norm(a.iter) for a in __import__("sa.model", fromlist=["ancestors"]).ancestors(c) if isinstance(a, ast.For)])
             if from_compare:
                 res.ok("R15.9", f.loc(c), f.fq, f"{short(c, 70)} # {kind}", "operators of a comparison: no comparison can see the order of a set", trivial=True)
                 continue
@@ -883,6 +889,8 @@ def _r15_6(prog: Program, res: Result, ev: Evaluator) -> None:
 from ..selftest import Variant  # noqa: E402
 
 VARIANTS = [
+    Variant("ranges-of-any-length-built-for-comparisons", "FIRE", "core", "    if function_name == \"range\" and not is_method and all(type(arg) is int for arg in args):\n", "    if False and function_name == \"range\" and not is_method:\n", "R15.12",
+            extra=[("core", "        return bool(args) and (len(args) > 3 or (len(args) == 3 and args[2] == 0) or len(range(*args)) > limit)\n", "        return False\n")]),
     Variant("operators-applied-without-cost-bound", "FIRE", "core", "        if _is_too_large_to_compute(node.op, left, right):\n            raise ValueError(\"The value is too large to be computed while formatting\")\n", "", "R15.12"),
     Variant("builtins-called-without-cost-bound", "FIRE", "core", "            if _is_too_costly_to_call(node.func.id, args, is_method=False):\n                raise ValueError(\"The value is too large to be computed while formatting\")\n", "", "R15.12"),
     Variant("cost-bound-asked-after-the-computation", "FIRE", "core", "        if _is_too_costly_to_call(node.func.attr, args, is_method=True):\n            raise ValueError(\"The value is too large to be computed while formatting\")\n        return getattr(node_value, node.func.attr)(*args)\n", "        result = getattr(node_value, node.func.attr)(*args)\n        if _is_too_costly_to_call(node.func.attr, args, is_method=True):\n            raise ValueError(\"The value is too large to be computed while formatting\")\n        return result\n", "R15.12"),
